@@ -77,6 +77,37 @@ def _gen_cases(rng, tier):
             cases.append({"kind": "explode", "h": h, "sub": None, "lim": ["frac", lim.numerator, lim.denominator], "inf": None})
         else:
             cases.append({"kind": "h_explode", "h": h, "md": None, "pl": ["frac", lim.numerator, lim.denominator], "via_pool": rng.random() < 0.3})
+    for i in range(n // 10):
+        # weighted die, a predicate that holds for two or more faces of different weight, fractional limits on
+        # and between the probabilities of the chains of re-rolls (the cut depends on the path taken)
+        cs = rng.sample([1, 2, 3, 5, 6], 3)
+        h = [[gens.q(j + 1), c] for j, c in enumerate(cs)]
+        t = sum(cs)
+        sub = [o for o, _ in rng.sample(h, 2)]
+        ps = sorted({Fraction(c, t) for o, c in h if o in sub})
+        cands = [ps[0], ps[-1], ps[0] * ps[-1], ps[-1] ** 2, ps[0] ** 2, (ps[0] + ps[-1]) / 2, (ps[0] * ps[-1] + ps[-1] ** 2) / 2,
+                 ps[-1] ** 3, ps[0] * ps[-1] ** 2]
+        lim = rng.choice([c for c in cands if 0 < c < 1])
+        cases.append({"kind": "explode", "h": h, "sub": sub, "lim": ["frac", lim.numerator, lim.denominator], "inf": None})
+    for i in range(n // 10):
+        # an expand function that looks at the histogram it is given: two histograms share a face that is final
+        # in one and expands in the other ("d6: on 6 roll a d4; d4: on 1 go back to the d6")
+        a = gens.hist_pos(rng, max_faces=3, frac_p=0.0, style=rng.choice(["unit", "pos"]))
+        if len(a) < 2:
+            continue
+        shared = a[0][0]
+        b = sorted([[shared, rng.choice([1, 2])]] + [[gens.q(v), 1] for v in rng.sample(range(8, 12), rng.randint(1, 2))],
+                   key=lambda oc: Fraction(*oc[0]))
+        ta = [[a[-1][0], ["hist", b]]]                  # top face of a -> roll b
+        tb = [[shared, ["hist", [list(x) for x in a]]]]   # shared face: final in a, back to a from b
+        if rng.random() < 0.5:
+            tb.append([b[-1][0], ["out", gens.q(0)]])
+        md = rng.choice([["int", 2], ["int", 3], ["int", 4], None])
+        pl = None
+        if md is None:
+            pl = rng.choice([["frac", 1, 20], ["frac", 1, 50]])
+        cases.append({"kind": "substitute", "h": a, "table": ta, "tables2": [[b, tb]], "coalesce": rng.choice(["replace", "add"]),
+                      "md": md, "pl": pl})
     for i in range(n):
         r = i % 10
         h = gens.hist(rng, max_faces=4, style=rng.choice(["unit", "small", "pos"]), frac_p=0.05)
@@ -146,8 +177,15 @@ def impl_run(case):
         elif k == "substitute":
             tbl = {Fraction(*f): t for f, t in case["table"]}
 
+            tbls2 = [(t2h, {Fraction(*f): t for f, t in t2}) for t2h, t2 in case.get("tables2", [])]
+
             def expand(hh, outcome):
-                t = tbl.get(Fraction(outcome))
+                cur = tbl
+                for t2h, t2 in tbls2:
+                    if hist_items(hh) == [[list(o), c] for o, c in t2h]:
+                        cur = t2
+                        break
+                t = cur.get(Fraction(outcome))
                 if t is None:
                     return outcome
                 if t[0] == "out":
@@ -200,6 +238,10 @@ def coq_check(case, r):
         return f"chk_explode {chist(case['h'])} {clist(cq(o) for o in case['sub'])} {ec.climit(case['lim'])} {inf} {e}"
     if k == "substitute":
         tbl = clist(f"({cq(f)}, {_cval(t)})" for f, t in case["table"])
+        if case.get("tables2"):
+            t2 = clist("(%s, %s)" % (chist(hh), clist(f"({cq(f)}, {_cval(t)})" for f, t in tt)) for hh, tt in case["tables2"])
+            return (f"chk_substitute2 {chist(case['h'])} {tbl} {t2} {'true' if case['coalesce'] == 'add' else 'false'} "
+                    f"{ec.climit(case['md'])} {ec.climit(case['pl'])} {e}")
         return (f"chk_substitute {chist(case['h'])} {tbl} {'true' if case['coalesce'] == 'add' else 'false'} "
                 f"{ec.climit(case['md'])} {ec.climit(case['pl'])} {e}")
     return f"chk_h_explode {chist(case['h'])} {ec.climit(case['md'])} {ec.climit(case['pl'])} {e}"
@@ -287,8 +329,15 @@ def oracle(case):
             lim = case["pl"] if case["pl"] is not None else case["md"]
             tbl = {Fraction(*f): t for f, t in case["table"]}
 
+            tbls2 = [([[list(o), c] for o, c in t2h], {Fraction(*f): t for f, t in t2}) for t2h, t2 in case.get("tables2", [])]
+
             def step(f, items):
-                t = tbl.get(f)
+                cur = tbl
+                for t2h, t2 in tbls2:
+                    if [[list(o), c] for o, c in items] == t2h:
+                        cur = t2
+                        break
+                t = cur.get(f)
                 if t is None:
                     return ("out", f)
                 if t[0] == "out":
